@@ -28,6 +28,15 @@ class ToolError(Exception):
     pass
 
 
+class HarnessCrash(Exception):
+    """The harness process died (abort / signal) or hung inside a call into the code under
+    test; `label` and `input_hex` come from the crash journal written before each call."""
+
+    def __init__(self, how, label, input_hex):
+        Exception.__init__(self, "%s in %s on input %s" % (how, label, input_hex[:120]))
+        self.how, self.label, self.input_hex = how, label, input_hex
+
+
 def log(*a):
     print(*a, file=sys.stderr, flush=True)
 
@@ -75,6 +84,21 @@ def build_harness(profile="debug"):
     return os.path.join(HARNESS, "target", profile, "wtv")
 
 
+def _journal(args):
+    if "--out" not in args:
+        return None
+    path = args[args.index("--out") + 1] + ".journal"
+    try:
+        with open(path) as f:
+            line = f.readline().strip()
+        if line:
+            label, _, hexin = line.partition(" ")
+            return label, hexin
+    except OSError:
+        pass
+    return None
+
+
 def run_harness(binary, args, timeout=900, env_extra=None):
     env = dict(os.environ)
     if env_extra:
@@ -84,10 +108,17 @@ def run_harness(binary, args, timeout=900, env_extra=None):
         p = subprocess.run([binary] + args, stdout=subprocess.PIPE, stderr=subprocess.PIPE,
                            text=True, timeout=timeout, env=env)
     except subprocess.TimeoutExpired:
+        j = _journal(args)
+        if j and args[0] != "e2e":
+            raise HarnessCrash("no progress within %ds" % timeout, j[0], j[1])
         raise ToolError("harness timeout: %s" % " ".join(args))
     if p.returncode != 0:
         log(p.stdout[-2000:])
         log(p.stderr[-4000:])
+        j = _journal(args)
+        if j and args[0] != "e2e" and (p.returncode < 0 or p.returncode in (134, 139)):
+            raise HarnessCrash("process died (exit %d: abort / allocation failure / stack overflow)" % p.returncode,
+                               j[0], j[1])
         raise ToolError("harness failed (%d): %s" % (p.returncode, " ".join(args)))
     log("[harness] %s in %.1fs: %s" % (args[0], time.time() - t0, p.stdout.strip()[-200:]))
     return p.stdout
